@@ -93,3 +93,29 @@ def check(ctx):
             raise AnchorMissing("PoolWorker::remove_expired_transactions")
         calls = [c for u in us for c in u.calls_to(f"{POOL}::remove_transactions_and_dependents")]
         ctx.expect_sites("3.expiry-cascades-and-reports", calls, at_least=1, what="expiry goes through remove_transactions_and_dependents")
+
+    # -- 4. every report names the transaction that left the pool --
+    with ctx.clause("4.report-names-the-removed-transaction"):
+        SQN = "fuel_core_types::services::transaction_status::statuses::SqueezedOut::new"
+        IDC = "fuel_core_types::services::txpool::PoolTransaction::id"
+        n_cl = 0
+        for fn in ("insert_inner", "remove_transactions_and_dependents", "remove_skipped_transaction", "rollback_preconfirmed_transaction"):
+            u4 = F.unit(f"{POOL}::{fn}")
+            for x in u4.bodies:
+                news = [c for c in x.calls if c.bb in x.live and c.is_path(SQN)]
+                if not news or not x.is_closure_like():
+                    continue
+                n_cl += 1
+                tag = f"{fn}-{x.defq.rsplit('::', 1)[-1]}"
+                o4 = Origins(x, 1)
+                for c in news:
+                    ctx.add(f"4.{tag}-status-carries-own-id", "PROV", atom_match(o4.atoms(c.args[1]), f"call:{IDC}") and not any(k == "upvar" for k, v in o4.atoms(c.args[1])),
+                            "the SqueezedOut status carries the id of the removed entry itself", sites=[c.where()], site_key=tag + ":st")
+                tups = [s for bb, j, s in x.stmts() if bb in x.live and s["k"] == "assign" and s["pl"]["l"] == 0 and s["rv"]["k"] == "agg" and s["rv"].get("ak") == "tuple" and len(s["rv"].get("ops", [])) == 2]
+                for s in tups:
+                    at = o4.atoms(s["rv"]["ops"][0])
+                    ctx.add(f"4.{tag}-reported-under-own-id", "PROV", atom_match(at, f"call:{IDC}") and not any(k == "upvar" for k, v in at),
+                            "each removed transaction is reported under its own id (not under the id of the transaction that caused the removal: "
+                            "its dependents would never be reported and the cause would be reported several times)", sites=[f"{x.file}:{s.get('line')}"], site_key=tag + ":id",
+                            witness={"atoms": sorted(map(str, at))[:10]})
+        ctx.add("4.report-closures", "COUNT", n_cl >= 5, f"{n_cl} closures build squeezed-out reports", sites=[str(n_cl)], site_key="n")
